@@ -1,6 +1,6 @@
 (* Streaming reader: case lemmas for ASCIIreader.Parse, the run lemma from ANY reader state,
    the encoding/json image on ASCII states. *)
-From RP Require Import Lib.Base Lib.Sexp Lib.Strings Lib.Utf8 Lib.B64 Lib.TrimSpace Model.Gfx
+From RP Require Import Lib.Base Lib.Sexp Lib.Strings Lib.Utf8 Lib.B64 Lib.TrimSpace Model.Gfx Spec.Transfer
   Proofs.GfxMatch Proofs.GfxBatch.
 From Coq Require Import String.
 Open Scope Z_scope.
@@ -96,7 +96,6 @@ Proof.
 Qed.
 
 (* ---- encoding/json image: identity on ASCII ---- *)
-Definition ascii (s : list Z) : Prop := Forall (fun c => 0 <= c < 128) s.
 
 Lemma json_string_fuel_ascii : forall s fuel, ascii s -> (List.length s <= fuel)%nat -> json_string_fuel fuel s = s.
 Proof.
@@ -114,8 +113,6 @@ Qed.
 Lemma json_string_ascii s : ascii s -> json_string s = s.
 Proof. intros H. unfold json_string. apply json_string_fuel_ascii; auto. Qed.
 
-Definition reader_ascii (st : reader) : Prop :=
-  ascii (r_type st) /\ ascii (r_list st) /\ Forall ascii (r_buf st).
 
 Lemma json_reader_ascii st : reader_ascii st -> json_reader st = st.
 Proof.
@@ -139,13 +136,8 @@ Proof.
 Qed.
 
 (* ---- unrelated lines between the chunk lines ---- *)
-Definition other_line (l : list Z) : Prop := gfx_match (trim_space l) = None.
-Definition nones {A} (os : list A) : list (list (list Z * gfx)) := map (fun _ => []) os.
 Definition stable (ser : bool) (st : reader) : Prop := init_rule st = st /\ ser_ok ser (reader_ascii st).
 
-(* a history with unrelated lines: every chunk line comes with the other lines fed before it *)
-Definition unspace (sp : list (list (list Z) * list Z)) : list (list Z) :=
-  flat_map (fun p => fst p ++ [snd p]) sp.
 
 Lemma rsteps_others ser st os rest : stable ser st -> Forall other_line os ->
   rsteps ser st (os ++ rest) = let '(o, f) := rsteps ser st rest in (nones os ++ o, f).
@@ -166,16 +158,8 @@ Proof.
     exists st'. rewrite Hst'. destruct (rsteps ser st' rest). rewrite (out_gfx_other _ Hl). reflexivity.
 Qed.
 
-(* outputs of a spaced run: nothing, except [final] at its last chunk line *)
-Fixpoint sp_outs (sp : list (list (list Z) * list Z)) (final : list (list Z * gfx)) : list (list (list Z * gfx)) :=
-  match sp with
-  | [] => []
-  | [p] => nones (fst p) ++ [final]
-  | p :: r => nones (fst p) ++ [[]] ++ sp_outs r final
-  end.
 
 Definition sp_lines (sp : list (list (list Z) * list Z)) : list (list Z) := map (fun p => trim_space (snd p)) sp.
-Definition sp_others_ok (sp : list (list (list Z) * list Z)) : Prop := Forall (fun p => Forall other_line (fst p)) sp.
 
 Lemma in_transfer_stable ser k cmd buf N lst :
   is_cmd cmd -> ser_ok ser (ascii lst) -> ser_ok ser (Forall ascii buf) -> stable ser (mkR k cmd buf N lst).
